@@ -256,13 +256,13 @@ Units == <<
   [s |-> "cm", d |-> "length", n |-> 3, c |-> "cgs"],
   [s |-> "km", d |-> "length", n |-> 4, c |-> "prefixed"],
   [s |-> "J/N", d |-> "length", n |-> 5, c |-> "si"],
-  [s |-> "AU", d |-> "length", n |-> 6, c |-> "other"],
+  [s |-> "AU", d |-> "length", n |-> 6, c |-> "reval"],
   [s |-> "Hz", d |-> "rate", n |-> 1, c |-> "si"],
   [s |-> "MHz", d |-> "rate", n |-> 2, c |-> "prefixed"],
   [s |-> "1/s", d |-> "rate", n |-> 3, c |-> "si"],
   [s |-> "1/min", d |-> "rate", n |-> 4, c |-> "compound"],
   [s |-> "J", d |-> "energy", n |-> 1, c |-> "si"],
-  [s |-> "keV", d |-> "energy", n |-> 2, c |-> "prefixed"],
+  [s |-> "keV", d |-> "energy", n |-> 2, c |-> "reval"],
   [s |-> "erg", d |-> "energy", n |-> 3, c |-> "cgs"],
   [s |-> "kg*m**2/s**2", d |-> "energy", n |-> 4, c |-> "si"],
   [s |-> "g*cm**2/s**2", d |-> "energy", n |-> 5, c |-> "cgs"],
@@ -273,8 +273,8 @@ Units == <<
   [s |-> "km**-1", d |-> "spatial_frequency", n |-> 4, c |-> "prefixed"],
   [s |-> "kg", d |-> "mass", n |-> 1, c |-> "si"],
   [s |-> "g", d |-> "mass", n |-> 2, c |-> "cgs"],
-  [s |-> "Msun", d |-> "mass", n |-> 3, c |-> "other"],
-  [s |-> "me", d |-> "mass", n |-> 4, c |-> "other"],
+  [s |-> "Msun", d |-> "mass", n |-> 3, c |-> "reval"],
+  [s |-> "me", d |-> "mass", n |-> 4, c |-> "reval"],
   [s |-> "lb", d |-> "mass", n |-> 5, c |-> "other"],
   [s |-> "J*s**2/m**2", d |-> "mass", n |-> 6, c |-> "si"],
   [s |-> "K", d |-> "temperature", n |-> 1, c |-> "si"],
@@ -291,11 +291,11 @@ Units == <<
   [s |-> "percent", d |-> "dimensionless", n |-> 3, c |-> "other"],
   [s |-> "kg/m**3", d |-> "density", n |-> 1, c |-> "si"],
   [s |-> "g/cm**3", d |-> "density", n |-> 2, c |-> "cgs"],
-  [s |-> "Msun/pc**3", d |-> "density", n |-> 3, c |-> "compound"],
+  [s |-> "Msun/pc**3", d |-> "density", n |-> 3, c |-> "reval"],
   [s |-> "mg/L", d |-> "density", n |-> 4, c |-> "prefixed"],
   [s |-> "m**-3", d |-> "number_density", n |-> 1, c |-> "si"],
   [s |-> "cm**-3", d |-> "number_density", n |-> 2, c |-> "cgs"],
-  [s |-> "1/pc**3", d |-> "number_density", n |-> 3, c |-> "compound"],
+  [s |-> "1/pc**3", d |-> "number_density", n |-> 3, c |-> "reval"],
   [s |-> "1/L", d |-> "number_density", n |-> 4, c |-> "other"],
   [s |-> "W/m**2", d |-> "flux", n |-> 1, c |-> "si"],
   [s |-> "erg/s/cm**2", d |-> "flux", n |-> 2, c |-> "cgs"],
@@ -304,8 +304,26 @@ Units == <<
   [s |-> "s", d |-> "time", n |-> 1, c |-> "si"],
   [s |-> "hr", d |-> "time", n |-> 2, c |-> "other"],
   [s |-> "Pa", d |-> "pressure", n |-> 1, c |-> "si"],
-  [s |-> "dyne/cm**2", d |-> "pressure", n |-> 2, c |-> "cgs"]
+  [s |-> "dyne/cm**2", d |-> "pressure", n |-> 2, c |-> "cgs"],
+  \* code units: symbols that exist only in the custom registry of the input
+  [s |-> "code_length", d |-> "length", n |-> 7, c |-> "code"],
+  [s |-> "1/code_time", d |-> "rate", n |-> 7, c |-> "code"],
+  [s |-> "code_mass*code_length**2/code_time**2", d |-> "energy", n |-> 7, c |-> "code"],
+  [s |-> "1/code_length", d |-> "spatial_frequency", n |-> 7, c |-> "code"],
+  [s |-> "code_mass", d |-> "mass", n |-> 7, c |-> "code"],
+  [s |-> "code_temperature", d |-> "temperature", n |-> 7, c |-> "code"],
+  [s |-> "code_length/code_time", d |-> "velocity", n |-> 7, c |-> "code"],
+  [s |-> "code_mass/code_length**3", d |-> "density", n |-> 7, c |-> "code"],
+  [s |-> "code_length**-3", d |-> "number_density", n |-> 7, c |-> "code"],
+  [s |-> "code_mass/code_time**3", d |-> "flux", n |-> 7, c |-> "code"]
 >>
+\* registry of the input: the default registry, or a custom one in which the standard symbols Msun, AU, eV, me, pc have
+\* other values (class "reval": spellings containing them) and which defines code units (class "code").  A string target
+\* is read in the input's registry.  Forms of a target: a string, a Unit object of the input's registry, a Unit object of
+\* the default registry.
+Regs == {"default", "custom"}
+TForms == {"str", "uin", "udef"}
+UnitInReg(i, reg) == IF reg = "default" THEN Units[i].c # "code" ELSE TRUE
 UI == DOMAIN Units
 UnitsOfDim(d) == {i \in UI : Units[i].d = d}
 
@@ -341,7 +359,7 @@ AllEntries == CopyEntries \cup InPlaceEntries
 \* shapes: q = unyt_quantity, a = 1-d unyt_array, v1 = contiguous slice of a larger array, v2 = strided slice
 Shapes == {"q", "a", "v1", "v2"}
 NElem(sh) == IF sh = "q" THEN 1 ELSE 2
-MkObj(d, u, pair, dt, sh) == [d |-> d, u |-> u, v |-> IF sh = "q" THEN <<pair[1]>> ELSE pair, dt |-> dt, sh |-> sh]
+MkObj(d, u, pair, dt, sh) == [d |-> d, u |-> u, v |-> IF sh = "q" THEN <<pair[1]>> ELSE pair, dt |-> dt, sh |-> sh, reg |-> "default"]
 
 \* dtypes: numpy kind + item size (c8 = complex64, c16 = complex128)
 AllDts == {"i1", "u1", "i2", "u2", "i4", "u4", "i8", "u8", "f2", "f4", "f8", "c8", "c16"}
@@ -382,7 +400,7 @@ Outcome(o, q) ==
 \* the object a later step sees
 After(o, q, out) ==
   IF out.k # "ok" \/ ~q.fo THEN o
-  ELSE [d |-> Units[q.tu].d, u |-> q.tu, v |-> out.v, dt |-> out.dt,
+  ELSE [d |-> Units[q.tu].d, u |-> q.tu, v |-> out.v, dt |-> out.dt, reg |-> o.reg,     \* the result stays in the input's registry
         sh |-> IF q.en \in InPlaceEntries THEN o.sh ELSE IF o.sh = "q" THEN "q" ELSE "a"]
 
 \* property side: the values the defining formula gives for a covered request (<<>> when not exactly representable)
